@@ -19,7 +19,7 @@ RULE = (
     "{3 angular scales; kpc scales; separation weighting; one small scale} on catalogs with >= 2 objects per patch and bin; "
     "transformations: rotations {straddling RA=0, centre on north pole, on south pole, pole on a patch "
     "border, generic}, also with right ascensions given in (-180,180] (radian and degree input); row orders {reverse, rotate by one, swap first two, interleave | all permutations for "
-    "n<=4}; every permutation of the centre list; weight factors {1e-3,0.5,2,1e3} on each of the four catalogs; "
+    "n<=4}; every permutation of the centre list; weight factors {1e-3,0.5,2,1e3,1e-12} on each of the four catalogs; "
     "every split of the unknown catalog into two catalogs that both cover all patches. Oracle: CorrFunc.sample() "
     "data/samples(permuted accordingly)/covariance and RedshiftData.from_corrfuncs equal to 1e-9, raw counts of "
     "the halves add up. Skipped by rule: base scenario with a pair within 1e-9 of a scale limit. Non-trivial: "
